@@ -116,9 +116,13 @@ def r_ident_case(sql):
     return map_words(sql, lambda w, nxt, prv: w.upper() if w.lower() not in KEYWORDS else w)
 
 
+# words that are functions / constants without parentheses: quoting them would turn them into column references
+NILADIC = {"current_timestamp", "current_date", "current_time", "current_user", "session_user", "localtime", "localtimestamp", "sysdate", "user", "rownum"}
+
+
 def r_quote(sql, q='"'):
     def f(w, nxt, prv):
-        if w.lower() in KEYWORDS or w != w.lower() or nxt == "(" or w in ("int", "string", "decimal", "bigint", "varchar", "date", "double", "float", "integer", "char", "timestamp", "boolean"):
+        if w.lower() in KEYWORDS or w != w.lower() or nxt == "(" or w in ("int", "string", "decimal", "bigint", "varchar", "date", "double", "float", "integer", "char", "timestamp", "boolean") or w in NILADIC:
             return w
         return q + w + q
 
